@@ -4,3 +4,7 @@ open A2l.Gr
 #print axioms consistent_empty
 #print axioms corrupt_one
 #print axioms report_subset
+#print axioms this_report_iff
+#print axioms this_consistent_empty
+#print axioms this_corrupt_one
+#print axioms this_fallback_iff
